@@ -249,6 +249,9 @@ class CallMixin:
                 raise Unsupported(
                     f"dynamic dispatch of {fi.qualname} over {subs} without a contract on the base method"
                 )
+        if c is not None and (c.start_at or c.stop_at or c.body_of_loop is not None):
+            # a region contract speaks about a statement range, not about a call of the whole function
+            raise Unsupported(f"call of {fi.qualname}, which only has a region contract")
         if c is not None and not c.inline:
             return self.apply_contract(c, fi, args, kwargs, st, node)
         return self.inline_call(fi, args, kwargs, st, node, c)
